@@ -492,6 +492,69 @@ fn map(r: u64, columns: bool) -> Value {
   json!({"op": "map", "r": r, "columns": columns})
 }
 
+/// random sorted mapping sequences (big values included) and random
+/// strings of the v3 grammar
+fn codec_steps(g: &mut Gen) -> Vec<Value> {
+  let big = |g: &mut Gen| -> i64 {
+    match g.rng.gen_range(0..10) {
+      0..=4 => g.rng.gen_range(0..40),
+      5..=6 => g.rng.gen_range(0..2000),
+      7 => g.pick(&[15, 16, 31, 32, 1023, 1024, 32767, 32768, 1048575, 1048576]),
+      8 => g.rng.gen_range(0..(1i64 << 30)),
+      _ => (1i64 << 30) - g.rng.gen_range(1..3),
+    }
+  };
+  let n = g.rng.gen_range(1..=8);
+  let mut segs: Vec<Vec<i64>> = vec![];
+  let mut gl = 1i64;
+  let mut gc = 0i64;
+  for _ in 0..n {
+    if g.rng.gen_bool(0.3) {
+      gl += g.rng.gen_range(1..4);
+      gc = if g.rng.gen_bool(0.5) { 0 } else { big(g) };
+    } else if g.rng.gen_bool(0.85) {
+      gc = (gc + big(g) / 8).min((1 << 30) - 1);
+    }
+    if g.rng.gen_bool(0.2) {
+      segs.push(vec![gl, gc, -1, 0, 0, -1]);
+    } else {
+      let ni = if g.rng.gen_bool(0.4) { big(g) } else { -1 };
+      let repeat = g.rng.gen_bool(0.25) && segs.last().map(|s| s[2] >= 0).unwrap_or(false);
+      if repeat {
+        let l = segs.last().unwrap().clone();
+        segs.push(vec![gl, gc, l[2], l[3], l[4], if g.rng.gen_bool(0.5) { -1 } else { l[5] }]);
+      } else {
+        segs.push(vec![gl, gc, big(g), big(g) + 1, big(g), ni]);
+      }
+    }
+  }
+  let mut steps = vec![json!({"op": "codec", "segs": segs}), json!({"op": "lines_encode", "segs": segs})];
+  // a grammar string: canonical encoding with random respellings
+  let as_segs: Vec<Seg> = segs.iter().map(|s| (s[0], s[1], s[2], s[3], s[4], s[5])).collect();
+  let canon = encode_segs(&as_segs);
+  let mut spelled = vec![];
+  for (i, c) in canon.iter().enumerate() {
+    let is_last_digit = B64.iter().position(|b| b == c).map(|v| v < 32).unwrap_or(false);
+    if is_last_digit && g.rng.gen_bool(0.15) {
+      // one redundant continuation digit
+      let v = B64.iter().position(|b| b == c).unwrap();
+      spelled.push(B64[v + 32]);
+      spelled.push(b'A');
+    } else {
+      spelled.push(*c);
+    }
+    if (*c == b',' || *c == b';') && g.rng.gen_bool(0.1) {
+      spelled.push(b',');
+    }
+    let _ = i;
+  }
+  if g.rng.gen_bool(0.2) {
+    spelled.push(g.pick(&[b',', b';']));
+  }
+  steps.push(json!({"op": "decode", "m": bytes_json(&spelled)}));
+  steps
+}
+
 pub fn generate(kind: &str, seed: u64, count: usize, out: &str) {
   std::panic::set_hook(Box::new(|_| {}));
   let cfg = match kind {
@@ -506,6 +569,12 @@ pub fn generate(kind: &str, seed: u64, count: usize, out: &str) {
   let mut pid = 0u64;
   while (pid as usize) < count {
     g.reset_program();
+    if kind == "codec" {
+      let steps = codec_steps(&mut g);
+      writeln!(f, "{}", json!({"pid": pid, "steps": steps})).unwrap();
+      pid += 1;
+      continue;
+    }
     // building inside the generator may hit a crate panic; skip such shapes
     let tree = match std::panic::catch_unwind(std::panic::AssertUnwindSafe(|| {
       let d = g.cfg.depth;
